@@ -12,7 +12,7 @@ static const char *KEYS[KMAX] = { "a", "b", "c", "d", "e", "f", "g", "h" };
 static const char *VALS[2] = { "1", "2" };
 
 typedef struct { spif_map_t m; int has[KMAX]; int val[KMAX]; int n; } st_t;
-enum { K_SET, K_SET_PAIR, K_REMOVE, K_SET_OWN };      /* K_SET_OWN: the value argument is an object the map itself holds (v=0: under the same key, v=1: under the smallest other key) */
+enum { K_SET, K_SET_PAIR, K_REMOVE, K_SET_OWN, K_DONE };      /* K_SET_OWN: the value argument is an object the map itself holds (v=0: under the same key, v=1: under the smallest other key) */
 typedef struct { int k, key, v; } op_t;
 static op_t OPS[128]; static int NOPS;
 
@@ -22,12 +22,14 @@ static void build_ops(void)
     for (int k = 0; k < NK; k++) for (int v = 0; v < 2; v++) { OPS[NOPS++] = (op_t) { K_SET, k, v }; OPS[NOPS++] = (op_t) { K_SET_PAIR, k, v }; }
     for (int k = 0; k < NK; k++) OPS[NOPS++] = (op_t) { K_REMOVE, k, 0 };
     for (int k = 0; k < NK; k++) for (int v = 0; v < 2; v++) OPS[NOPS++] = (op_t) { K_SET_OWN, k, v };
+    OPS[NOPS++] = (op_t) { K_DONE, 0, 0 };             /* done(): the map gives up everything it holds and stays usable */
 }
 static void op_name(int i, char *b, size_t n)
 {
     op_t *o = &OPS[i];
     if (o->k == K_SET) snprintf(b, n, "set(%s,%s)", KEYS[o->key], VALS[o->v]);
     else if (o->k == K_SET_PAIR) snprintf(b, n, "set(pair(%s,%s),NULL)", KEYS[o->key], VALS[o->v]);
+    else if (o->k == K_DONE) snprintf(b, n, "done()");
     else if (o->k == K_SET_OWN) snprintf(b, n, o->v ? "set(%s, the value object the map holds under its smallest other key)" : "set(%s, get(%s))", KEYS[o->key], KEYS[o->key]);
     else snprintf(b, n, "remove(%s)", KEYS[o->key]);
 }
@@ -107,6 +109,10 @@ static void apply(void *vs, int op)
         if ((r ? 1 : 0) != s->has[o->key]) FAIL(site(m), "model:return", shape, "set returned %d, key %s present", (int) r, s->has[o->key] ? "was" : "was not");
         if (!s->has[o->key]) { s->has[o->key] = 1; s->n++; }
         s->val[o->key] = o->v;
+    } else if (o->k == K_DONE) {
+        m = "done";
+        if (!SPIF_MAP_DONE(s->m)) FAIL(site(m), "model:return", shape, "done returned FALSE");
+        memset(s->has, 0, sizeof s->has); s->n = 0;
     } else if (o->k == K_SET_OWN) {
         int src = o->v ? other_key(s, o->key) : o->key;
         spif_obj_t K = S_(KEYS[o->key]), KS = S_(KEYS[src]); m = "set(own value)";
